@@ -137,7 +137,11 @@ def ste(chk):
         dq = ci.own("dequantize")
         for p in paths_of(dq):
             if p.end[0] == "return":
-                ok = U(p.end[1]) == f"{fname}.apply(self)"
+                # the value returned is the result of the autograd function, possibly through differentiable, value-preserving steps (a cast, a layout call)
+                e_ = p.end[1]
+                while isinstance(e_, ast.Call) and isinstance(e_.func, ast.Attribute) and e_.func.attr in ("to", "type", "contiguous", "clone", "float", "half", "bfloat16", "double") and not U(e_.func.value).startswith("torch"):
+                    e_ = e_.func.value
+                ok = U(e_) == f"{fname}.apply(self)"
                 chk.require("C11.R1", f"{ci.mod.rel}:{p.end[2]}", ok, f"{cname}.dequantize goes through {fname}.apply(self)", f"{cname}.dequantize", "dequantize through autograd function", "gradients through dequantize follow the arithmetic (multiplied by the scale) instead of passing through")
 
 
